@@ -147,6 +147,9 @@ const BASE: u64 = 1_700_000_000_000_000_000; // ns
 fn stamp(k: u64, gran: u64, sub: u64) -> u64 { BASE + k * gran + sub }
 
 pub fn run(cfg: &Cfg, out: &mut Out) {
+    // a memory file system when there is one (every stamp is forced anyway): the run is thousands of
+    // tiny file operations.  Single-threaded at this point, before any workspace exists.
+    if Path::new("/dev/shm").is_dir() { unsafe { std::env::set_var("TMPDIR", "/dev/shm"); } }
     let mut ctx = Ctx { tw: TestWorkspace::init(), round_no: 0 };
     const EDITS: [Edit; 6] = [Edit::None, Edit::Touch, Edit::SameSize, Edit::OtherSize, Edit::Chmod, Edit::SameSizeChmod];
     // Part 1 — exhaustive: all orderings/equalities of (w, s, e) over 3 grid points × 6 edits × 2 exec bits,
@@ -172,7 +175,7 @@ pub fn run(cfg: &Cfg, out: &mut Out) {
     out.note("exhaustive: every </=/> pattern of (recorded, state-file, edit) stamps over a 3-point grid at 1 ms / 1 s / 2 s × 6 edit kinds × 2 exec bits; all sub-ms offset combinations; then random".into());
     // Part 3 — random rounds
     let mut r = cfg.rng(26);
-    for _ in 0..cfg.n(100, 4000) {
+    for _ in 0..cfg.n(250, 8000) {
         let gran = *r.pick(&[1_000_000u64, 10_000_000, 1_000_000_000, 2_000_000_000]);
         let pts = r.range(2, 4) as u64;
         let sub = |r: &mut Rng| if r.chance(1, 3) { *r.pick(&[1u64, 300_000, 999_999]) } else { 0 };
